@@ -1,0 +1,35 @@
+//go:build verif
+
+package transforms32
+
+import "image"
+
+// Exported views of the unexported portable and assembly kernels, so that both can be
+// called on the same input.
+
+func VerifForwardDCT64Go(input []float32)                   { forwardDCT64(input) }
+func VerifForwardDCT256Go(input []float32)                  { forwardDCT256(input) }
+func VerifYCbCrToGrayGo(img *image.YCbCr, pixels []float32) { yCbCrToGrayAlt(img, pixels) }
+
+// VerifDCT2DHash64Go is the portable branch of DCT2DHash64 with the portable 1-D kernel.
+func VerifDCT2DHash64Go(input []float32) [64]float32 {
+	var flattens [64]float32
+	for i := 0; i < 64; i++ {
+		forwardDCT64((input)[i*64 : 64*i+64])
+	}
+	var row [64]float32
+	for i := 0; i < 8; i++ {
+		for j := 0; j < 64; j++ {
+			row[j] = (input)[64*j+i]
+		}
+		forwardDCT64(row[:])
+		for j := 0; j < 8; j++ {
+			flattens[8*j+i] = row[j]
+		}
+	}
+	return flattens
+}
+
+func VerifQuickSelectMedian(sequence []float32, low, hi, k int) float32 {
+	return quickSelectMedian(sequence, low, hi, k)
+}
